@@ -161,6 +161,18 @@ func (p *Program) Hash() uint64 {
 }
 
 // seeded, well-formed uuid chosen by the caller
+// (well formed = 8-4-4-4-12 hex digits; callers are free to use any version,
+// variant and letter case: the library matches case-insensitively and never
+// inspects version bits)
 func seedUUID(seed uint64) string {
-	return fmt.Sprintf("%08x-5eed-4000-8000-%012x", uint32(seed>>32), seed&0xffffffffffff)
+	hi, lo := uint32(seed>>32), seed&0xffffffffffff
+	switch seed % 4 {
+	case 1: // version 1 layout, RFC variant
+		return fmt.Sprintf("%08x-5eed-11ee-9000-%012x", hi, lo)
+	case 2: // upper-case hex letters (Windows style GUID)
+		return fmt.Sprintf("%08X-5EED-4ABC-8DEF-%012X", hi, lo|0xabcdef000000)
+	case 3: // nil-like / non-RFC variant
+		return fmt.Sprintf("%08x-0000-0000-0000-%012x", hi, lo)
+	}
+	return fmt.Sprintf("%08x-5eed-4000-8000-%012x", hi, lo)
 }
